@@ -26,6 +26,11 @@ pub fn min_edge_cut<I>(edges: I, source: usize, sink: usize)
         );
         if let Some(next) = next {
             path_edges = next;
+            #[cfg(rust_dsymbols_verif)]
+            crate::verif::emit(format!(
+                "{{\"ev\":\"augment\",\"flow\":{:?}}}",
+                path_edges.iter().map(|&(v, w)| vec![v, w]).collect::<Vec<_>>()
+            ));
         } else {
             let cut_edges = edges.iter()
                 .filter(|&(v, w)| seen.contains(v) && !seen.contains(w))
